@@ -88,6 +88,19 @@ CHECKS = {
             "prediction.",
             "Trusted: armmc/ref (bv, state, rows_dp) - hand transcription of DDI 0406C. 32-bit operand values from an "
             "alphabet; cond=AL (C05 covers conditions); UNPREDICTABLE instances not generated.", "3 C01"),
+    "C11": ("product enumeration of exception kind x source mode x state x routing-bit assignments (complete over the "
+            "bits each kind consults, single deviations of the others) on the real entry code, full snapshot compared "
+            "with a reference model of B1.9",
+            "Every exception kind (Reset, Undef, SVC, SMC, Data Abort permission/alignment, IRQ, FIQ, Hyp trap) is taken "
+            "through Registers.take_*_exception()/take_reset() from every legal source mode x T x ITSTATE x A/I/F x PC "
+            "(incl. the last words of the address space) x VBAR/MVBAR/HVBAR values, in 4 extension configurations, for "
+            "the full product of the routing bits that kind's pseudocode reads (SCTLR.V/VE/TE/EE, HSCTLR.TE/EE, "
+            "SCR.NS/IRQ/FIQ/EA/FW/AW, HCR.TGE/IMO/FMO) and every single deviation of the remaining routing bits; and "
+            "through emulate_cycle() on SVC/SMC/UDF/alignment-faulting LDR/STR in both instruction sets. The whole "
+            "post-snapshot (target mode, SPSR, LR/ELR_hyp, masks, IT, J, T, E, vector, SCR.NS, DFSR/DFAR, everything "
+            "else unchanged) is compared with ref.exc.",
+            "Trusted: armmc/ref/exc.py. External/asynchronous aborts and debug exceptions are constant-false mocks in the "
+            "emulator and are not explored; HSR syndrome values are not compared.", "3 C11"),
 }
 NOT_YET = "check not built yet in this round (see DESIGN.md section 3 for the planned bounded-exhaustive formulation)"
 
